@@ -387,6 +387,7 @@ func libCompileSearchTwice(expr string, doc interface{}) (first, again libOut) {
 				}
 			}
 		}()
+		unrelatedParses()
 		for _, d := range interveningDocs {
 			if p := safely(func() { _, _ = c.Search(ref.DeepCopy(d)) }); p != nil {
 				again.Panic = p
@@ -604,4 +605,14 @@ func splitComma(s string) []string {
 		out = append(out, cur)
 	}
 	return out
+}
+
+// unrelatedParses compiles and searches a few other expressions (every kind of token that
+// carries a value: numbers in indices and slices, literals, raw strings, quoted identifiers).
+// A compiled expression must own what it was built from; whatever these calls return is ignored.
+func unrelatedParses() {
+	for _, e := range []string{"z[7:8:9].y[::-3][-4]", "`[9,8,7]` | 'other' | \"q\".r[5]", "x[-2:-6:-2]", "sort_by(`[{\"k\":2},{\"k\":1}]`, &k)[1:]", "zz[ 11 : 12 : 13 ]"} {
+		safely(func() { _, _ = jp.Compile(e) })
+		safely(func() { _, _ = jp.Search(e, nil) })
+	}
 }
